@@ -2,6 +2,7 @@ package sx
 
 import (
 	"fmt"
+	"time"
 	"go/token"
 	"go/types"
 	"math"
@@ -30,6 +31,19 @@ func lookupIntercept(p *Program, fn *ssa.Function) interceptFn {
 		}
 	}
 	name := fnKey(fn)
+	if h, ok := p.Stubs[name]; ok && p.Harness != nil {
+		hf := p.Harness.Func(h)
+		if hf == nil {
+			panic("harness stub function not found: " + h)
+		}
+		return func(w *Worker, fr *frame, fn *ssa.Function, args []value) value {
+			// the harness function takes the same parameters as the stubbed function when it declares any
+			if hf.Signature.Params().Len() == 0 {
+				return w.call(fr, fr.g, hf, nil)
+			}
+			return w.call(fr, fr.g, hf, args)
+		}
+	}
 	if f, ok := stdIntercepts[name]; ok {
 		return f
 	}
@@ -265,8 +279,24 @@ func init() {
 			}
 			return args[0]
 		},
-		"vFireTimers": func(w *Worker, fr *frame, fn *ssa.Function, args []value) value {
-			return nil
+		"vClockCount": func(w *Worker, fr *frame, fn *ssa.Function, args []value) value {
+			return len(w.clockReadings)
+		},
+		"vClockReading": func(w *Worker, fr *frame, fn *ssa.Function, args []value) value {
+			k := int(w.concInt(args[0], "clock-index"))
+			if k < 0 || k >= len(w.clockReadings) {
+				panic(fmt.Sprintf("vClockReading(%d): only %d readings so far", k, len(w.clockReadings)))
+			}
+			return w.clockReadings[k]
+		},
+		"vLastTimerDuration": func(w *Worker, fr *frame, fn *ssa.Function, args []value) value {
+			if w.lastTimerDur == nil {
+				return int64(-1)
+			}
+			return w.lastTimerDur
+		},
+		"vTimersCreated": func(w *Worker, fr *frame, fn *ssa.Function, args []value) value {
+			return len(w.sched.timers)
 		},
 	}
 }
@@ -844,7 +874,46 @@ func init() {
 		return nil
 	}
 	S["time.NewTimer"] = func(w *Worker, fr *frame, fn *ssa.Function, args []value) value {
+		w.lastTimerDur = args[0]
 		return w.newTimer(fn, false, nil)
+	}
+	S["(time.Duration).String"] = func(w *Worker, fr *frame, fn *ssa.Function, args []value) value {
+		if d, ok := args[0].(int64); ok {
+			return time.Duration(d).String()
+		}
+		return "<duration>"
+	}
+	S["(time.Time).String"] = func(w *Worker, fr *frame, fn *ssa.Function, args []value) value { return "<time>" }
+	S["(time.Time).Format"] = S["(time.Time).String"]
+	S["(time.Time).Add"] = func(w *Worker, fr *frame, fn *ssa.Function, args []value) value {
+		t := args[0].(structure)
+		wall, wok := t[0].(uint64)
+		if !wok {
+			panic(unsupported{"time.Time.Add on symbolic wall clock"})
+		}
+		_, dSym := args[1].(*Term)
+		_, eSym := t[1].(*Term)
+		if wall&(1<<63) == 0 {
+			if dSym || eSym {
+				panic(unsupported{"time.Time.Add with symbolic operand on a time without monotonic reading"})
+			}
+			// concrete wall-clock time: real arithmetic
+			tt := timeFromStruct(t)
+			return timeToStruct(tt.Add(time.Duration(args[1].(int64))), t[2])
+		}
+		// monotonic: ext' = ext + d, assuming no overflow (checked)
+		i64 := types.Typ[types.Int64]
+		ne := w.binop(token.ADD, i64, t[1], args[1])
+		if dSym || eSym {
+			// overflow <=> sign(d) == sign(ext) && sign(result) != sign(ext); readings are < 2^60 so only huge |d| overflows
+			ovf := w.orv(
+				w.andv(w.binop(token.GTR, i64, args[1], int64(0)), w.binop(token.LSS, i64, ne, t[1])),
+				w.andv(w.binop(token.LSS, i64, args[1], int64(0)), w.binop(token.GTR, i64, ne, t[1])))
+			if w.decide(ovf, "time-add-overflow") {
+				panic(unsupported{"time.Time.Add overflows the monotonic reading (bound the durations in the harness)"})
+			}
+		}
+		return structure{t[0], ne, t[2]}
 	}
 	S["time.NewTicker"] = func(w *Worker, fr *frame, fn *ssa.Function, args []value) value {
 		if d, ok := args[0].(int64); ok && d <= 0 {
@@ -1133,6 +1202,7 @@ func (w *Worker) monoReading() value {
 	}
 	v := w.freshVar("clock", 64)
 	if v.IsConst() {
+		w.clockReadings = append(w.clockReadings, int64(v.C))
 		return int64(v.C)
 	}
 	lo := w.tt.Const(64, 1<<20)
@@ -1140,8 +1210,8 @@ func (w *Worker) monoReading() value {
 		lo = w.lastClock
 	}
 	w.assertPCNoRecord(w.tt.And(w.tt.Cmp(OpSLe, lo, v), w.tt.Cmp(OpSLe, v, w.tt.Const(64, 1<<60))))
-	w.pc = append(w.pc, w.tt.True())
 	w.lastClock = v
+	w.clockReadings = append(w.clockReadings, v)
 	return v
 }
 
@@ -1282,4 +1352,17 @@ func (w *Worker) errorsAs(fr *frame, err, target iface, depth int) value {
 		}
 		return false
 	}
+}
+
+func timeFromStruct(t structure) time.Time {
+	// only used for times without a monotonic reading: wall = nsec, ext = seconds since year 1
+	wall := t[0].(uint64)
+	ext := t[1].(int64)
+	const unixToInternal = int64((1969*365 + 1969/4 - 1969/100 + 1969/400) * 86400)
+	return time.Unix(ext-unixToInternal, int64(wall&(1<<30-1))).UTC()
+}
+
+func timeToStruct(tm time.Time, loc value) value {
+	const unixToInternal = int64((1969*365 + 1969/4 - 1969/100 + 1969/400) * 86400)
+	return structure{uint64(tm.Nanosecond()), tm.Unix() + unixToInternal, loc}
 }
